@@ -127,10 +127,12 @@ static struct cstl_rbtree auxtree;
 static struct telem auxel[64];
 static int reentrant;
 
+static int pl_calls;     /* bumped by the comparison and visit callbacks; read by small setjmp-free functions right after a library call */
 static int cmp_key(const void *a, const void *b, void *p)
 {
     const struct telem *x = ELM(a), *y = ELM(b);
     const struct tord *to = p;
+    pl_calls++;
     if (reentrant) {
         CB_ENTER();
         struct telem pr; const struct telem *fx, *fy;
@@ -585,6 +587,12 @@ static void giant_churn(int rbkind, unsigned sel, uint64_t variant)
 
 static struct telem probe;
 
+static int pl_mid_visit(const void *e, cstl_bintree_visit_order_t ord, void *p) { (void)e; (void)p; if (ord == CSTL_BINTREE_VISIT_ORDER_MID || ord == CSTL_BINTREE_VISIT_ORDER_LEAF) pl_calls++; return 0; }
+static int bt_find_plain(struct cstl_bintree *b, const void *probe) { pl_calls = 0; g_inlib = 1; (void)cstl_bintree_find(b, probe, NULL); g_inlib = 0; return pl_calls; }
+static int rb_find_plain(struct cstl_rbtree *r, const void *probe) { pl_calls = 0; g_inlib = 1; (void)cstl_rbtree_find(r, probe, NULL); g_inlib = 0; return pl_calls; }
+static int bt_foreach_plain(struct cstl_bintree *b, int rev) { pl_calls = 0; g_inlib = 1; (void)cstl_bintree_foreach(b, pl_mid_visit, NULL, rev ? CSTL_BINTREE_FOREACH_DIR_REV : CSTL_BINTREE_FOREACH_DIR_FWD); g_inlib = 0; return pl_calls; }
+static int rb_foreach_plain(struct cstl_rbtree *r, int rev) { pl_calls = 0; g_inlib = 1; (void)cstl_rbtree_foreach(r, pl_mid_visit, NULL, rev ? CSTL_BINTREE_FOREACH_DIR_REV : CSTL_BINTREE_FOREACH_DIR_FWD); g_inlib = 0; return pl_calls; }
+
 static void t_exec(const plan_t *p)
 {
     struct simheap_cfg hc = { RP_MOVE, 0, (unsigned char)p->cfg[CF_JUNK] };
@@ -703,6 +711,13 @@ static void t_exec(const plan_t *p)
         case T_FIND: {
             int held = 0;
             probe.key = key;
+            if (k % 4 == 1) {
+                /* what an optimised caller may assume about find (attributes on its prototype): the comparison function's
+                 * effects on the caller's own statics must be visible when the call returns */
+                int seen = is_rb(t) ? rb_find_plain(&rb[t - 2], HND(&probe)) : bt_find_plain(BT(t), HND(&probe));
+                if (m->n >= 1 && seen < 1) VIOL(t, "callback_effects_invisible", "tree %d: find among %d elements: the caller's own counter, written by the comparison function and read right after the call in an optimised function, says %d", t, m->n, seen);
+                PROBE("callback_counted_in_plain_function");
+            }
             if (is_rb(t)) TRY(ret = cstl_rbtree_find(&rb[t - 2], HND(&probe), &par));
             else TRY(ret = cstl_bintree_find(BT(t), HND(&probe), &par)); ret = ELMN(ret);
             if (g_aborted) VIOL(t, "abort", "find aborted");
@@ -782,6 +797,10 @@ static void t_exec(const plan_t *p)
         }
         case T_FOREACH: {
             int rev = (int)(o->a[2] & 1);
+            if (k % 4 == 1) {
+                int seen = is_rb(t) ? rb_foreach_plain(&rb[t - 2], rev) : bt_foreach_plain(BT(t), rev);
+                if (seen != m->n) VIOL(t, "callback_effects_invisible", "tree %d: foreach over %d elements: the caller's own counter, written by the visit function and read right after the call in an optimised function, says %d", t, m->n, seen);
+            }
             int total = 3 * m->n + 2;
             int stop_at = (int)(o->a[3] % (uint64_t)total);
             int stop_val = stopvals[(o->a[4] >> 8 ^ o->a[4]) % 12];
